@@ -479,7 +479,7 @@ def plan(ctx):
     else:
         uni("U-S2d2", "product")
         uni("U-S2", "sum", frac=16)
-        fam("U-F", "sum-gens", max_deg=3)
+        fam("U-F", "sum-gens", max_deg=3, stride=2, offset=ctx.seed)
         boards = [(w, l, s, fd) for (w, l) in ((1, 2), (2, 2), (3, 2)) for s in (0, 1) for fd in (False, True)]
         cpu = 2.0
     fam("U-N", "sum")              # near chains: order of three almost-equal successors must not matter
